@@ -430,6 +430,7 @@ Proof.
   - unfold w_exit. destruct (lookup a (actors w)) as [x|]; [|assumption].
     destruct (a_alive x), (a_stop x), (a_run x); try assumption. apply actor_exit_QI. assumption.
   - apply stop_actor_QI. assumption.
+  - assumption.
   - unfold w_close. destruct (lookup a (actors w)) as [x|]; [|assumption].
     destruct (a_alive x), (a_stop x), (a_run x); try assumption.
     assert (G : QI (actor_exit a (CStopExit a) w)) by (apply actor_exit_QI; assumption). exact G.
